@@ -246,12 +246,15 @@ func (a address) assign(k bool, value int8, valueType reflect.Type) {
 		a.em.fb.emitSetSlice(k, a.op1, value, a.op2, a.pos, valueType.Kind())
 	case assignNonLocalSliceIndex:
 		a.em.fb.emitSetSlice(k, a.op1, value, a.op2, a.pos, valueType.Kind())
-		a.em.fb.emitSetVar(false, a.op1, a.nonLocal, a.addressedType.Kind())
+		// The element of a slice is set in place: storing the slice back
+		// into the variable is needed only if it is not a slice.
+		if a.addressedType.Kind() != reflect.Slice {
+			a.em.fb.emitSetVar(false, a.op1, a.nonLocal, a.addressedType.Kind())
+		}
 	case assignLocalMapIndex:
 		a.em.fb.emitSetMap(k, a.op1, value, a.op2, a.addressedType, a.pos)
 	case assignNonLocalMapIndex:
 		a.em.fb.emitSetMap(k, a.op1, value, a.op2, a.addressedType, a.pos)
-		a.em.fb.emitSetVar(false, a.op1, a.nonLocal, a.addressedType.Kind())
 	case assignLocalStructSelector:
 		a.em.fb.emitSetField(k, a.op1, a.op2, value, valueType.Kind())
 	case assignNonLocalStructSelector:
